@@ -199,6 +199,8 @@ class TrackedRig(Rig):
         mgr.manage_user_tracking = wrapped
 
     def cycle_info(self) -> dict:
+        for t in self.mgr.transfers:       # a decision taken before the schedule registered a new transfer still sees it
+            self.adopt(t)
         info = super().cycle_info()
         info['inflight'] = [self.k_of(t) for t in self.mgr.transfers
                             if t.is_upload() and t.state.VALUE.name == 'QUEUED'
